@@ -59,7 +59,12 @@ Terms(i) == LET x == C.Q[i]  sc == C.score[i] IN
            ELSE { LET q == QuadSafe(Diff(C.D[d], x), C.Hinv[j]) IN <<j, d, IF q = HUGE THEN HUGE ELSE sc + C.nlw[d] + (NK(j) + q) \div 2>>
                   : d \in {d \in 1..ND : C.labels[d] = j /\ C.D[d] # x} }
          : j \in 1..NG }
-Ambiguous(i) == \E j \in 1..NG : LET m == QuadSafe(Diff(C.Q[i], C.G[j]), C.Hinv[j]) IN m # HUGE /\ NearCut(m)
+\* precision: an entry of the inverse bandwidth is known to one unit (2^-14), so a Mahalanobis distance is known to about
+\* Dm^2 |x - g|^2 units; a cell that can matter (distance below 400) but whose distance is not known to 0.02 leaves the query
+\* undecided (strongly anisotropic bandwidths with the query far along the wide direction)
+Coarse(i, j) == LET dl == Diff(C.Q[i], C.G[j])  m == QuadSafe(dl, C.Hinv[j]) IN
+                m # HUGE /\ m < 400 * S /\ Dm * Dm * (FDot(dl, dl) \div S) > 330
+Ambiguous(i) == \E j \in 1..NG : (LET m == QuadSafe(Diff(C.Q[i], C.G[j]), C.Hinv[j]) IN m # HUGE /\ NearCut(m)) \/ Coarse(i, j)
 RECURSIVE SumT(_)
 SumT(T) == IF T = {} THEN 0 ELSE LET t == CHOOSE t \in T : TRUE IN
            (IF t[3] = HUGE \/ t[3] > 300 * S THEN 0 ELSE IF t[3] < 0 THEN S ELSE ExpNeg(t[3])) + SumT(T \ {t})
